@@ -556,13 +556,13 @@ def rule_r8(ctx: Ctx) -> None:
 
 
 def run(ctx: Ctx) -> None:
-    rule_r1(ctx)
-    rule_r2(ctx)
-    rule_r3(ctx)
-    rule_r4(ctx)
-    rule_r5(ctx)
-    rule_r6(ctx)
-    rule_r7(ctx)
-    rule_r8(ctx)
+    ctx.attempt(rule_r1, ctx)
+    ctx.attempt(rule_r2, ctx)
+    ctx.attempt(rule_r3, ctx)
+    ctx.attempt(rule_r4, ctx)
+    ctx.attempt(rule_r5, ctx)
+    ctx.attempt(rule_r6, ctx)
+    ctx.attempt(rule_r7, ctx)
+    ctx.attempt(rule_r8, ctx)
     ctx.assume("itertools.product / combinations_with_replacement, math.lcm and set arithmetic are exact (trusted stdlib)")
     ctx.undecided("that the per-operator residue formulas equal the mathematical definition for all operator trees and divisors (number theory over unbounded integers); validate_numerically is a run-time self-check")
